@@ -5,6 +5,9 @@
 import CG.Tx
 import CG.Spec
 import CG.Proofs.Limit
+import CG.Tx3
+import CG.Props.C18
+import CG.Proofs.InsReg
 namespace CG.C05
 
 /-- static tie: the gate map of `limit_fanin` extracted from tx.py is the one these proofs are about -/
@@ -60,6 +63,62 @@ theorem limit_rejects_small_k (c : Circuit) (k : Nat) (hk : k < 2) (ord : Ord) :
 /-- the pre-fix table entry `xnor ↦ xnor` is wrong: the obligation `gatemap_assoc` fails for it (K2) -/
 example : gateFn "xnor" [false, false, false] ≠
     (gateFn "xnor" [false, false]).bind (fun ab => gateFn "xnor" [ab, false]) := by decide
+
+/-! ### insert_registers and acyclic_unroll of an acyclic circuit -/
+
+/-- the flops inserted by the call (instances of the result that the argument did not have) behave as wires -/
+def NewWired (c c' : Circuit) (v : Val) : Prop :=
+  ∀ q ∈ c'.bbs, q ∉ c.bbs → v (q.1 ++ ".q") = v (q.1 ++ ".d")
+
+/-- glue: `NewWired` is the predicate `InsReg.NewWired'` the helper files are stated with -/
+theorem newWired_iff (c c' : Circuit) (v : Val) : NewWired c c' v ↔ InsReg.NewWired' c c' v := Iff.rfl
+
+/-- **C05 (insert_registers).** the call only splices flip-flop blackboxes into existing wires: original nodes keep
+    their types and output marks, the outputs are unchanged, the only new input is the clock, and replacing every
+    inserted flop by a wire from its d pin to its q pin gives a circuit equivalent to the original — every consistent
+    valuation of the result in which each new flop passes d to q restricts to a consistent valuation of the original,
+    and every consistent valuation of the original extends to such a valuation; for every number of stages for which
+    the call succeeds and every set-iteration order -/
+theorem insert_registers_sem (c c' : Circuit) (k : Nat) (ord : Ord) (hord : OrdOK ord) (fuel : Nat)
+    (hc : LintClean c) (hnobb : c.bbs = []) (h : Tx.insertRegisters c k ord fuel = .ok c') :
+    (∀ n, c.has n = true → c'.attr? n = c.attr? n) ∧
+    (∀ x, x ∈ c'.outputs ↔ x ∈ c.outputs) ∧
+    (∀ x, x ∈ c'.inputs ↔ (x ∈ c.inputs ∨ (x = "clk" ∧ c.has "clk" = false))) ∧
+    (∀ q ∈ c'.bbs, q.2 = { name := "ff", ins := ["clk", "d"], outs := ["q"] }) ∧
+    (∀ v', Consistent c' v' → NewWired c c' v' → Consistent c v') ∧
+    (∀ v, Consistent c v → ∃ v', Consistent c' v' ∧ NewWired c c' v' ∧ ∀ n, c.has n = true → v' n = v n) := by
+  exact InsReg.insert_registers_main c c' k ord hord fuel hc hnobb h
+
+/-- at least one register stage is really inserted when a stage boundary exists: a non-vacuity witness that the call
+    succeeds and adds flops on a concrete three-level circuit -/
+def exReg : Circuit :=
+  { nodes := [("a", { ty := some "input", out := some false }), ("b", { ty := some "input", out := some false }),
+              ("g", { ty := some "and", out := some false }), ("h", { ty := some "not", out := some false }),
+              ("o", { ty := some "or", out := some true })],
+    edges := [("a", "g"), ("b", "g"), ("g", "h"), ("h", "o"), ("a", "o")] }
+example : (Tx.insertRegisters exReg 1 id 100).toOption.map (fun c' => (c'.bbs.map (·.1), c'.nodes.length)) =
+    some (["ff_h"], 10) := by decide +kernel
+
+/-- **C05 (acyclic_unroll of an acyclic circuit).** nothing is cut: the result has the same inputs and outputs and
+    every output computes the same function of the inputs as before -/
+theorem acyclic_unroll_of_acyclic (c a : Circuit) (ord ordF : Ord) (hord : OrdOK ord) (hordF : OrdOK ordF)
+    (hc : C18.Good c) (hnox : ∀ p ∈ c.nodes, p.2.ty ≠ some "x") (hacyc : Acyclic c)
+    (h : Tx.acyclicUnroll c ord ordF = .ok a) :
+    (∀ x, x ∈ a.inputs ↔ x ∈ c.inputs) ∧ (∀ x, x ∈ a.outputs ↔ x ∈ c.outputs) ∧
+    (∀ v w, Consistent c v → Consistent a w → (∀ i ∈ c.inputs, w i = v i) → ∀ o ∈ c.outputs, w o = v o) ∧
+    (∀ v, Consistent c v → ∃ w, Consistent a w ∧ ∀ i ∈ c.inputs, w i = v i) := by
+  have hfas : Tx.approxMinFas c = [] := InsReg.fas_nil_of_acyclic c hc.clean.toWF hacyc
+  obtain ⟨_, _, houts, hins⟩ := C18.acyclic_unroll_shape c a ord ordF hord hordF hc h
+  refine ⟨?_, houts, ?_, ?_⟩
+  · intro x
+    rw [hins x, hfas]
+    simp
+  · intro v w hv hw hin
+    exact C18.stable_state_preserved c a ord ordF hord hordF hc hnox h v hv w hw hin
+      (by rw [hfas]; intro f hf; cases hf)
+  · intro v hv
+    obtain ⟨w, hw, hin, _⟩ := C18.stable_state_realised c a ord ordF hord hordF hc h v hv
+    exact ⟨w, hw, hin⟩
 
 /-! non-vacuity: a lint-clean circuit with a 4-input xnor and a node driving 3 loads -/
 def ex : Circuit :=
